@@ -19,6 +19,15 @@ destination holds nothing beyond SIZE.
      path and part count to LocalMultiPartCreate; create_part opens without truncating and seeks to `start`.
  (E) destination rules and documented errors: Transfer.__init__, Copier._dest_type, SourceCopier._full_dest,
      copy_as_file / copy_as_dir / copy tails.
+ (F) which file a location names: LocalAsyncFS._get_path (a plain path names itself whatever characters it contains, a
+     file://[localhost] location loses exactly that prefix) and every LocalAsyncFS operation resolves its location through
+     it; hailtop.utils.url_join / url_basename treat a scheme-less location as a path (string contracts, z3 sequences).
+ (G) copying a directory (wave 4): the listed prefix is the source plus a trailing slash; files_iterator lists it
+     recursively; create_copies - ONE attempt under retry_transient_errors - walks a listing nobody has started to consume,
+     returns one copy_source thunk per listed entry in order, and on EVERY exceptional exit leaves no started listing
+     behind for the retry (listings are numbered, CONSUMED is the set an `async for` has started on; the iteration itself,
+     status() and size() may each fail); copy_source copies a listed file src+REL to url_join(full_dest, REL) exactly once
+     (string slicing); the tail of copy_as_dir runs every thunk of the successful attempt.
 """
 from __future__ import annotations
 
@@ -33,6 +42,7 @@ COPIER = 'hail/python/hailtop/aiotools/fs/copier.py'
 LOCAL = 'hail/python/hailtop/aiotools/local_fs.py'
 FS = 'hail/python/hailtop/aiotools/fs/fs.py'
 ROUTER = 'hail/python/hailtop/aiotools/router_fs.py'
+UTILS = 'hail/python/hailtop/utils/utils.py'
 
 NONE_U = z3.Const('nothing', pyvc.U)
 
@@ -731,6 +741,337 @@ def router_contracts():
     return out
 
 
+# ---- (G) copying a directory: the listing, one copy per listed file, the path of each file below the source ------------------------
+
+
+def _dir_scan(ctx):
+    """facts of SourceCopier.copy_as_dir decided on its AST: the listing made for the is-it-a-directory test is handed to
+    the first create_copies attempt UNCONSUMED (outside create_copies the variable is only ever assigned a new listing), and
+    create_copies / copy_source are used in no other way than the contracts below assume"""
+    tree = pyast.parse(core.read_repo(COPIER))
+    fn = pyvc.find_function(tree, 'SourceCopier.copy_as_dir')
+    inner = {n.name: n for n in pyvc._direct_defs(fn)}
+    for need in ('files_iterator', 'copy_source', 'create_copies'):
+        if need not in inner:
+            raise core.Undecided('anchor-moved: SourceCopier.copy_as_dir.%s not found' % need)
+    in_cc = {id(x) for x in pyast.walk(inner['create_copies'])}
+    outside = [x for x in pyast.walk(fn) if id(x) not in in_cc]
+    loads = [x for x in outside if isinstance(x, pyast.Name) and x.id == 'srcentries' and isinstance(x.ctx, pyast.Load)]
+    stores = []
+    for x in outside:
+        tgt = None
+        if isinstance(x, pyast.Assign) and len(x.targets) == 1:
+            tgt, val = x.targets[0], x.value
+        elif isinstance(x, pyast.AnnAssign) and x.value is not None:
+            tgt, val = x.target, x.value
+        if tgt is not None and isinstance(tgt, pyast.Name) and tgt.id == 'srcentries':
+            stores.append(pyast.unparse(val))
+    other_stores = [x for x in outside if isinstance(x, pyast.Name) and x.id == 'srcentries' and isinstance(x.ctx, (pyast.Store, pyast.Del))]
+    ok = not loads and stores and all(v == 'await files_iterator()' for v in stores) and len(other_stores) == len(stores)
+    ctx.add(core.decided('C22/SourceCopier.copy_as_dir/the-listing-of-the-directory-test-reaches-the-first-attempt-unconsumed', bool(ok), 'loads outside create_copies: %d; assigned from: %s' % (len(loads), stores)))
+    # create_copies runs only under retry_transient_errors; copy_source only as the thunk target
+    uses_cc = [x for x in outside if isinstance(x, pyast.Name) and x.id == 'create_copies']
+    calls_cc = [x for x in outside if isinstance(x, pyast.Call) and pyvc._dotted(x.func) == 'retry_transient_errors' and len(x.args) == 1 and isinstance(x.args[0], pyast.Name) and x.args[0].id == 'create_copies']
+    ctx.add(core.decided('C22/SourceCopier.copy_as_dir/create_copies-runs-only-as-the-retried-attempt', len(uses_cc) == len(calls_cc) == 1, '%d uses, %d retried calls' % (len(uses_cc), len(calls_cc))))
+    in_cs = {id(x) for x in pyast.walk(inner['copy_source'])}
+    fd_stores = [x for x in pyast.walk(fn) if isinstance(x, pyast.Name) and x.id in ('full_dest', 'src') and isinstance(x.ctx, (pyast.Store, pyast.Del)) and (id(x) in in_cs or id(x) in in_cc)]
+    ctx.add(core.decided('C22/SourceCopier.copy_as_dir/source-and-destination-are-not-rebound-by-the-nested-functions', not fd_stores, '%d' % len(fd_stores)))
+
+
+def dir_contracts():
+    out = []
+    strm = _str_models()
+
+    # -- the source location the listing is made of: self.src with exactly one trailing slash added when it has none
+    def setup_src(eng, st):
+        st.env['self'] = SRecord('SourceCopier', {'src': st.env['SELF_SRC']})
+
+    out.append((Contract(
+        path=COPIER, qualname='SourceCopier.copy_as_dir', label='SourceCopier.copy_as_dir[source-prefix]', fragment=('re:^src = self\\.src$', 're:^if not src\\.endswith'), strings=True,
+        extra_inputs={'SELF_SRC': 'str'}, setup=setup_src, calls=dict(strm),
+        ensures=[('the-listed-prefix-is-the-source-with-a-trailing-slash', "src.endswith('/') and (src == SELF_SRC or src == SELF_SRC + '/')")],
+        raises={}, canaries=[('never-adds-a-slash', 'src == SELF_SRC')],
+    ), 'copy-as-dir-source-prefix'))
+
+    # -- files_iterator: a RECURSIVE listing of that prefix
+    def listfiles(eng, st, args, kw, node):
+        rec = kw.get('recursive', args[1] if len(args) > 1 else False)
+        eng.oblige(st, 'the-source-directory-is-listed-recursively', z3.And(to_z3(args[0], 'U') == to_z3(st.env['src'], 'U'), eng.truthy(rec)))
+        st.env['n_listed'] = st.env['n_listed'] + 1
+        return z3.Const('the_listing', pyvc.U)
+
+    out.append((Contract(
+        path=COPIER, qualname='SourceCopier.copy_as_dir.files_iterator', extra_inputs={'src': 'U'}, consts={'NOTHING': NONE_U}, calls={'self.router_fs.listfiles': listfiles},
+        ghost_init={'n_listed': '0'}, ensures=[('one-recursive-listing-of-the-source-is-returned', 'n_listed == 1 and result == LISTING')], raises={},
+        setup=lambda eng, st: st.env.__setitem__('LISTING', z3.Const('the_listing', pyvc.U)), canaries=[('lists-nothing', 'n_listed == 0')],
+    ), 'copy-as-dir-files-iterator'))
+
+    # -- create_copies: one attempt (it runs under retry_transient_errors).  Listings are numbered: the one handed over by the
+    #    directory test is #1, every call of files_iterator() makes a new one; CONSUMED = those an `async for` has started on.
+    def mk_create_copies(tag, first):
+        def fail(name):
+            return z3.Const(pyvc.fresh_name(name), pyvc.U)
+
+        def consumed(eng, s, args, kw, node):
+            return z3.BoolVal(False) if args[0] is None else z3.Select(s.env['CONSUMED'], eng.num(args[0]))
+
+        def setup(eng, st):
+            st.env['srcentries'] = z3.IntVal(1) if first else None
+            st.env['CONSUMED'] = z3.K(z3.IntSort(), z3.BoolVal(False))
+            st.env['consumed'] = pyvc.SFunc('consumed', consumed)
+
+        def files_iterator(eng, st, args, kw, node):
+            e = fail('listing_exc')
+            new = eng.num(st.env['NEXT_ID'])
+
+            def ok(s):
+                s.env['NEXT_ID'] = s.env['NEXT_ID'] + 1
+                s.env['n_listed'] = s.env['n_listed'] + 1
+
+            raise Fork(node, [('listed', None, 'value', new, ok), ('listing-fails', None, 'raise', SExc(term=e), lambda s: s.env.__setitem__('last_exc', e))])
+
+        def iterate(eng, st, args, kw, node):
+            it = args[0]
+            entry = eng.uf('entry', ['int', 'int'], 'U')
+            if isinstance(it, int) and not isinstance(it, bool):
+                it = z3.IntVal(it)
+            if it is None or not (isinstance(it, z3.ExprRef) and z3.is_int(it)):
+                eng.oblige(st, 'the-loop-runs-over-a-listing', z3.BoolVal(False))
+                return pyvc.SList(z3.IntVal(0), z3.K(z3.IntSort(), NONE_U), 'U')
+            eng.oblige(st, 'every-attempt-walks-a-listing-nobody-has-started-to-consume', z3.Not(z3.Select(st.env['CONSUMED'], it)))
+            st.env['CONSUMED'] = z3.Store(st.env['CONSUMED'], it, z3.BoolVal(True))
+            st.env['WALKED'] = it
+            st.env['n_walks'] = st.env['n_walks'] + 1
+            n = eng.uf('listing_len', ['int'], 'int')(it)
+            st.assume(n >= 0)
+            j = z3.Int(pyvc.fresh_name('lj'))
+            e = fail('next_entry_exc')
+
+            def fails(s):
+                s.env['last_exc'] = e
+                return SExc(term=e)
+
+            return (pyvc.SList(n, z3.Lambda([j], entry(it, j)), 'U'), fails)
+
+        def status(eng, st, args, kw, node):
+            e = fail('status_exc')
+            v = z3.Const(pyvc.fresh_name('entry_status'), pyvc.U)
+            raise Fork(node, [('status', None, 'value', v, None), ('status-fails', None, 'raise', SExc(term=e), lambda s: s.env.__setitem__('last_exc', e))])
+
+        def size(eng, st, args, kw, node):
+            v = z3.Int(pyvc.fresh_name('entry_size'))
+            st.assume(v >= 0)
+            return v
+
+        def partial(eng, st, args, kw, node):
+            eng.oblige(st, 'the-thunk-copies-the-entry-with-copy_source', z3.BoolVal(isinstance(args[0], pyvc.SDotted) and args[0].name == 'copy_source' and len(args) == 2 and not kw))
+            return eng.uf('thunk_of', ['U'], 'U')(to_z3(args[1], 'U'))
+
+        left = 'srcentries is None or not consumed(srcentries)'
+        every = 'forall(lambda j: implies(0 <= j and j < %s, %s[j] == thunk_of(entry(WALKED, j))))'
+        return Contract(
+            path=COPIER, qualname='SourceCopier.copy_as_dir.create_copies', label='SourceCopier.copy_as_dir.create_copies[%s]' % tag, setup=setup, consts={'NOTHING': NONE_U},
+            types={'copy_thunks': 'List[U]', 'srcentry': 'U'}, spec_funcs={'entry': (['int', 'int'], 'U'), 'thunk_of': (['U'], 'U'), 'listing_len': (['int'], 'int')},
+            calls={'files_iterator': files_iterator, 'iter:srcentries': iterate, 'srcentry.status': status, '.size': size, 'functools.partial': partial},
+            ghost_init={'NEXT_ID': '2', 'n_listed': '0', 'n_walks': '0', 'WALKED': '0', 'last_exc': 'NOTHING'},
+            loops={0: LoopSpec(index='k', invariants=[
+                ('one-thunk-per-entry-handed-out-so-far-in-listing-order', 'len(copy_thunks) == k and ' + every % ('k', 'copy_thunks')),
+                ('sizes-add-up-to-a-count', 'bytes_to_copy >= 0'),
+            ], modifies=['last_exc'])},
+            ensures=[
+                ('one-copy-for-every-file-of-one-complete-listing-in-listing-order', 'n_walks == 1 and len(result[0]) == listing_len(WALKED) and ' + every % ('len(result[0])', 'result[0]')),
+                ('the-listing-walked-was-handed-over-unconsumed-or-made-by-this-attempt', 'WALKED == 1 or (2 <= WALKED and WALKED < NEXT_ID)' if first else '2 <= WALKED and WALKED < NEXT_ID'),
+            ],
+            raises={'*': 'exc == last_exc'},
+            on_raise=[('a-failed-attempt-leaves-no-started-listing-behind-for-the-retry', left)],
+            canaries=[('walks-no-listing', 'n_walks == 0'), ('copies-nothing', 'len(result[0]) == 0')],
+        )
+
+    out.append((mk_create_copies('first-attempt', True), 'create-copies-first-attempt'))
+    out.append((mk_create_copies('retry', False), 'create-copies-retry'))
+
+    # -- copy_source: the copy of ONE listed entry.  Assumed contract of listfiles(src, recursive=True) for a src that ends in
+    #    '/': the name of an entry is src followed by its path REL below src, and REL does not start with '/'
+    def url_of(eng, st, args, kw, node):
+        return st.env['SRCFILE']
+
+    def status1(eng, st, args, kw, node):
+        return z3.Const('this_entry_status', pyvc.U)
+
+    def join(eng, st, args, kw, node):
+        return eng.uf('url_join_rel', ['U', 'str'], 'U')(to_z3(args[0], 'U'), eng.pystr(args[1]))
+
+    def copy_call(eng, st, args, kw, node):
+        st.env['n_copy'] = st.env['n_copy'] + 1
+        sema, rep, srcfile, stat, dest, rex = args[:6]
+        eng.oblige(st, 'the-listed-file-itself-is-the-source', z3.And(eng.pystr(srcfile) == st.env['SRCFILE'], to_z3(stat, 'U') == z3.Const('this_entry_status', pyvc.U)))
+        eng.oblige(st, 'copied-to-the-destination-joined-with-its-path-below-the-source', to_z3(dest, 'U') == eng.uf('url_join_rel', ['U', 'str'], 'U')(to_z3(st.env['full_dest'], 'U'), st.env['REL']))
+        eng.oblige(st, 'semaphore-report-and-error-mode-passed-through', z3.And(to_z3(sema, 'U') == to_z3(st.env['sema'], 'U'), to_z3(rep, 'U') == to_z3(st.env['source_report'], 'U'), eng.truthy(rex) == eng.truthy(st.env['return_exceptions'])))
+        return None
+
+    out.append((Contract(
+        path=COPIER, qualname='SourceCopier.copy_as_dir.copy_source', types={'srcentry': 'U'}, strings=True,
+        extra_inputs={'src': 'str', 'REL': 'str', 'SRCFILE': 'str', 'full_dest': 'U', 'sema': 'U', 'source_report': 'U', 'return_exceptions': 'bool'},
+        requires=["src.endswith('/')", 'SRCFILE == src + REL', "not REL.startswith('/')"],
+        calls=dict(strm, **{'srcentry.url_maybe_trailing_slash': url_of, 'srcentry.url': url_of, 'srcentry.status': status1, 'url_join': join, 'self._copy_file_multi_part': copy_call}),
+        ghost_init={'n_copy': '0'},
+        ensures=[
+            ('a-listed-name-ending-in-a-slash-is-no-file-and-is-skipped', "implies(SRCFILE.endswith('/'), n_copy == 0)"),
+            ('every-other-listed-file-is-copied-exactly-once', "implies(not SRCFILE.endswith('/'), n_copy == 1)"),
+        ],
+        raises={}, canaries=[('copies-every-entry', 'n_copy == 1'), ('copies-nothing', 'n_copy == 0')],
+    ), 'copy-as-dir-copy-source'))
+
+    # -- the tail of copy_as_dir: the thunks of the (retried) attempt are ALL run
+    def retry(eng, st, args, kw, node):
+        eng.oblige(st, 'the-attempt-is-retried-as-a-whole', z3.BoolVal(len(args) == 1 and isinstance(args[0], pyvc.SDotted) and args[0].name == 'create_copies' and not kw))
+        st.env['n_attempts'] = st.env['n_attempts'] + 1
+        return (st.env['COPIES'], st.env['BYTES'])
+
+    def gather(eng, st, args, kw, node):
+        star = [a for a in node.args if isinstance(a, pyast.Starred)]
+        ok = len(node.args) == 2 and len(star) == 1 and not isinstance(node.args[0], pyast.Starred)
+        if ok:
+            v = eng.ev(star[0].value, st)
+            ok = isinstance(v, pyvc.SList) and v is st.env['COPIES']
+            ok = ok and to_z3(eng.ev(node.args[0], st), 'U').eq(to_z3(st.env['sema'], 'U'))
+        eng.oblige(st, 'every-thunk-of-the-attempt-is-run', z3.BoolVal(bool(ok)))
+        st.env['n_gather'] = st.env['n_gather'] + 1
+        return None
+
+    def start_files(eng, st, args, kw, node):
+        eng.oblige(st, 'files-announced-are-the-thunks', eng.num(args[0]) == st.env['COPIES'].len)
+        return None
+
+    out.append((Contract(
+        path=COPIER, qualname='SourceCopier.copy_as_dir', label='SourceCopier.copy_as_dir[run-the-copies]', fragment=('re:^copies, bytes_to_copy = ', 're:^await bounded_gather2'),
+        extra_inputs={'COPIES': 'List[U]', 'BYTES': 'int', 'sema': 'U', 'source_report': 'U'},
+        calls={'retry_transient_errors': retry, 'bounded_gather2': gather, 'source_report.start_files': start_files, 'source_report.start_bytes': lambda eng, st, args, kw, node: None},
+        ghost_init={'n_attempts': '0', 'n_gather': '0'},
+        ensures=[('one-successful-attempt-whose-thunks-are-all-run-once', 'n_attempts == 1 and n_gather == 1')], raises={},
+        canaries=[('never-runs-them', 'n_gather == 0')],
+    ), 'copy-as-dir-run-the-copies'))
+    return out
+
+
+# ---- (F) which file a location names: LocalAsyncFS._get_path ---------------------------------------------------------------------
+
+
+def _str_models():
+    """str.startswith / str.endswith on string terms (contracts with strings=True), as z3 prefix / suffix predicates"""
+
+    def startswith(eng, st, args, kw, node):
+        return z3.PrefixOf(eng.pystr(args[1]), eng.pystr(args[0]))
+
+    def endswith(eng, st, args, kw, node):
+        return z3.SuffixOf(eng.pystr(args[1]), eng.pystr(args[0]))
+
+    return {'.startswith': startswith, '.endswith': endswith}
+
+
+# assumed contract of urllib.parse.urlparse (CPython) for a url without ASCII control characters / leading blanks:
+#   url == [scheme ':'] ['//' netloc] path [(';' | '?' | '#') rest]      (the scheme comes back lower-cased: same length)
+# PATH is what `.path` returns, REST everything from the first of ; ? # that urlparse splits off (params, query, fragment).
+# Only the scheme-less, authority-less instance is stated (the others are not needed by any obligation and string
+# hypotheses are expensive): url == PATH + REST
+URLPARSE_INPUTS = {'SCHEME': 'str', 'NETLOC': 'str', 'PATH': 'str', 'REST': 'str', 'PARAMS': 'str', 'QUERY': 'str', 'FRAGMENT': 'str'}
+URLPARSE_REQUIRES = [
+    "implies(SCHEME == '' and NETLOC == '', url == PATH + REST)",
+    "REST == '' or REST.startswith(';') or REST.startswith('?') or REST.startswith('#')",
+]
+
+
+def _urlparse_model(eng, st, args, kw, node):
+    eng.oblige(st, 'the-location-itself-is-parsed', eng.equal(args[0], st.env['url']))
+    st.env['n_parsed'] = st.env['n_parsed'] + 1
+    return SRecord('ParseResult', {'scheme': st.env['SCHEME'], 'netloc': st.env['NETLOC'], 'path': st.env['PATH'], 'params': st.env['PARAMS'], 'query': st.env['QUERY'], 'fragment': st.env['FRAGMENT']})
+
+
+def get_path_contracts():
+    """LocalAsyncFS._get_path: the file a location names.  Local paths are not URLs: every character after the optional
+    file://[localhost] prefix belongs to the file name - also ';', '?' and '#', which a URL parser splits off."""
+    local = "(SCHEME == '' or SCHEME == 'file') and (NETLOC == '' or NETLOC == 'localhost')"
+    c = Contract(
+        path=LOCAL, qualname='LocalAsyncFS._get_path', types={'url': 'str'}, extra_inputs=dict(URLPARSE_INPUTS), requires=list(URLPARSE_REQUIRES), strings=True,
+        calls=dict(_str_models(), **{'urllib.parse.urlparse': _urlparse_model, 'urlparse': _urlparse_model}),
+        ghost_init={'n_parsed': '0'},
+        ensures=[
+            ('a-plain-path-names-itself-whatever-characters-it-contains', "implies(SCHEME == '' and NETLOC == '', result == url)"),
+            ('a-file-url-loses-exactly-its-scheme', "implies(SCHEME == 'file' and NETLOC == '' and url.startswith('file://'), 'file://' + result == url)"),
+            ('a-file-url-loses-exactly-its-scheme-and-the-local-authority', "implies(SCHEME == 'file' and NETLOC == 'localhost' and url.startswith('file://localhost'), 'file://localhost' + result == url)"),
+            ('only-local-locations-are-answered', local),
+        ],
+        raises={'ValueError': 'not (%s)' % local},
+        canaries=[('only-the-parsed-path-component', 'result == PATH'), ('never-strips-anything', 'result == url')],
+    )
+    return [(c, 'local-get-path')]
+
+
+def url_helper_contracts():
+    """hailtop.utils.url_join / url_basename, through which the copy tool builds `dest/basename(src)` and `dest/relative-path`:
+    a location without a scheme is a local path and is joined / basenamed as a path, whatever characters it contains
+    (genuine defect fixed in /repo 107e6cea0: both went through urlparse().path and dropped / moved everything after the
+    first ';', '?' or '#' of a directory name).  os.path.join / os.path.basename are uninterpreted (the same symbols in code
+    and specification)."""
+
+    def uf_str(name, n):
+        return lambda eng, st, args, kw, node: eng.uf(name, ['str'] * n, 'str')(*[eng.pystr(a) for a in args[-n:]])
+
+    def replace(eng, st, args, kw, node):
+        rec = st.env['parsed'].clone()
+        for k_, v_ in kw.items():
+            rec.fields[k_] = v_
+        return rec
+
+    def unparse(eng, st, args, kw, node):
+        r = args[0]
+        if not isinstance(r, SRecord):
+            raise core.Undecided('urlunparse of %r' % (r,))
+        return eng.uf('urlunparse', ['str'] * 6, 'str')(*[eng.pystr(r.fields[k_]) for k_ in ('scheme', 'netloc', 'path', 'params', 'query', 'fragment')])
+
+    base = dict(_str_models(), **{'urllib.parse.urlparse': _urlparse_model, 'urlparse': _urlparse_model, 'os.path.join': uf_str('os_path_join', 2), 'os.path.basename': uf_str('os_path_basename', 1),
+                                  'parsed._replace': replace, 'urllib.parse.urlunparse': unparse, 'urlunparse': unparse})
+    out = []
+    out.append((Contract(
+        path=UTILS, qualname='url_join', types={'url': 'str', 'path': 'str'}, extra_inputs=dict(URLPARSE_INPUTS), requires=list(URLPARSE_REQUIRES), strings=True, calls=dict(base),
+        spec_funcs={'os_path_join': (['str', 'str'], 'str')}, ghost_init={'n_parsed': '0'},
+        ensures=[('a-plain-path-is-joined-as-a-path-whatever-characters-it-contains', "implies(SCHEME == '', result == os_path_join(url, path))")],
+        raises={}, canaries=[('joined-onto-the-parsed-path-component-only', "result == os_path_join(PATH, path)")],
+    ), 'url-join'))
+    out.append((Contract(
+        path=UTILS, qualname='url_basename', types={'url': 'str'}, extra_inputs=dict(URLPARSE_INPUTS), requires=list(URLPARSE_REQUIRES), strings=True, calls=dict(base),
+        spec_funcs={'os_path_basename': (['str'], 'str')}, ghost_init={'n_parsed': '0'},
+        ensures=[('a-plain-path-has-the-basename-of-the-path-whatever-characters-it-contains', "implies(SCHEME == '', result == os_path_basename(url))")],
+        raises={}, canaries=[('basename-of-the-parsed-path-component-only', "result == os_path_basename(PATH)")],
+    ), 'url-basename'))
+    return out
+
+
+def _local_ops_resolve_through_get_path(ctx):
+    """every operation of LocalAsyncFS that is given a location (`url` parameter) resolves it with self._get_path(url) - the
+    function (F) is about - before it touches the file system, and hands `url` itself to no os / open call"""
+    tree = pyast.parse(core.read_repo(LOCAL))
+    cls = next((n for n in tree.body if isinstance(n, pyast.ClassDef) and n.name == 'LocalAsyncFS'), None)
+    if cls is None:
+        raise core.Undecided('anchor-moved: class LocalAsyncFS not found')
+    pure = {'valid_url', 'schemes', 'copy_part_size', '_get_path', 'parse_url'}
+    n = 0
+    for f in cls.body:
+        if not isinstance(f, (pyast.FunctionDef, pyast.AsyncFunctionDef)) or f.name in pure:
+            continue
+        if 'url' not in [a.arg for a in f.args.posonlyargs + f.args.args + f.args.kwonlyargs]:
+            continue
+        if not any(isinstance(x, pyast.Name) and x.id in ('os', 'open', 'shutil') for b_ in f.body for x in pyast.walk(b_)):
+            continue  # does not touch the file system itself (hands the location on)
+        n += 1
+        calls = [c for c in pyast.walk(f) if isinstance(c, pyast.Call)]
+        resolved = any(pyvc._dotted(c.func) in ('self._get_path', 'LocalAsyncFS._get_path') and len(c.args) == 1 for c in calls)
+        delegated = any(isinstance(c.func, pyast.Attribute) and isinstance(c.func.value, pyast.Name) and c.func.value.id == 'self' and any(isinstance(a, pyast.Name) and a.id == 'url' for a in c.args) for c in calls)
+        raw = [pyast.unparse(c) for c in calls if (pyvc._dotted(c.func) or '').split('.')[0] in ('os', 'open', 'blocking_to_async', 'shutil') and any(isinstance(a, pyast.Name) and a.id == 'url' for a in c.args)]
+        ctx.add(core.decided('C22/LocalAsyncFS.%s/location-resolved-through-_get_path' % f.name, (resolved or delegated) and not raw, 'resolved=%s delegated=%s raw=%s' % (resolved, delegated, raw)))
+    ctx.add(core.decided('C22/LocalAsyncFS/operations-with-a-location-found', n >= 8, '%d' % n))
+
+
 def native_witness(ctx):
     import os
     script = open(os.path.join(os.path.dirname(__file__), 'native', 'c22_replay.py')).read()
@@ -749,10 +1090,12 @@ def build(ctx):
         eng.run()
         _strict(ctx, eng, label)
     _part_sizes(ctx)
-    for c, label in local_contracts() + router_contracts() + rule_contracts() + flow_contracts():
+    for c, label in local_contracts() + router_contracts() + rule_contracts() + flow_contracts() + get_path_contracts() + url_helper_contracts() + dir_contracts():
         eng = pyvc.Engine(ctx, c)
         eng.run()
         _strict(ctx, eng, label)
+    _local_ops_resolve_through_get_path(ctx)
+    _dir_scan(ctx)
     import os
     script = open(os.path.join(os.path.dirname(__file__), 'native', 'c22_replay.py')).read()
     ctx.witness_search = lambda: core.run_native(script, {}, timeout=300)
@@ -762,7 +1105,11 @@ def build(ctx):
     ctx.assume('builtin open(): "w" modes truncate, "r+" and "a" keep the content, "r+" starts at 0 (CPython semantics); one abstract destination file, no concurrent writer of the same destination other than the parts of this copy')
     ctx.assume('asyncio: the two halves copy_as_file / copy_as_dir of a source meet at the barrier; each has recorded its verdict before releasing (rely used at barrier.wait())')
     ctx.assume('string operations endswith("/"), rstrip("/"), url_join, url_basename are uninterpreted functions (the same symbols in code and specification)')
-    ctx.undecided('byte contents themselves (positions and lengths are tracked, data is abstract); directory walk and the relative path of each file below a copied directory (copy_as_dir.copy_source: string slicing is outside the pyvc subset)')
+    ctx.assume('urllib.parse.urlparse(url) for a url without scheme and authority: url == .path + rest, where rest is empty or starts with one of ; ? # (params / query / fragment); only .scheme and .netloc are otherwise used by the code under contract')
+    ctx.assume('AsyncFS.listfiles(src, recursive=True) for src ending in "/": hands out every regular file below src exactly once, named src + REL with REL not starting with "/" (copy_source asserts both); the walk itself (LocalAsyncFS._listfiles_recursive, an async generator over os.scandir) is not under contract')
+    ctx.assume('retry_transient_errors(create_copies) calls create_copies again only after the previous call raised, never concurrently, and returns the result of the first call that returns (C21); os.path.join / os.path.basename are uninterpreted')
+    ctx.undecided('byte contents themselves (positions and lengths are tracked, data is abstract); the directory walk (which entries a recursive listing hands out); bytes_to_copy (progress report only)')
+    ctx.undecided('file:// locations whose path contains ; ? #: url_join / url_basename still go through urlparse for locations WITH a scheme (the part after the delimiter ends up behind the joined path); observation only: LocalAsyncFS._get_path("file:/tmp/x") == "mp/x" and _get_path("//localhost/tmp/x") == "st/tmp/x" (prefix length computed from "file://" + netloc although the text has no "//" / an extra "//") - both outside the antecedents of the _get_path postconditions (plain paths, file://[localhost]/...)')
     ctx.undecided('task interleavings beyond the barrier rely; error aggregation in CopyReport / TransferReport; _copy_one_transfer / _copy dispatch over lists of transfers')
     ctx.undecided('cloud multi-part uploads (S3 / GCS compose / Azure block lists): only the local MultiPartCreate is under contract')
 
@@ -781,4 +1128,4 @@ def thorough(ctx):
         if 'error' in r:
             raise core.CheckerBug('native scenario host failed: %r' % (r,))
         total += r.get('scenarios', 0)
-    ctx.bounded_standin('native-copy-scenarios', 'real Copier + LocalAsyncFS on temporary files: 14 sizes around part/buffer boundaries x 5 pre-existing destination states x 3 modes, 5 tree layouts, 4 documented errors, for 6 (part size, buffer size) pairs', total, bad is None, detail=repr(bad) if bad else '')
+    ctx.bounded_standin('native-copy-scenarios', 'real Copier + LocalAsyncFS on temporary files: 14 sizes around part/buffer boundaries x 5 pre-existing destination states x 3 modes, 5 tree layouts, 6 layouts with ; ? # in file / directory names (plain and file:// locations) + 1 single file, 4 directory copies with one injected transient error (status / listing), 4 documented errors, for 6 (part size, buffer size) pairs', total, bad is None, detail=repr(bad) if bad else '')
